@@ -52,7 +52,27 @@ def run(ctx, rep):
     sha = any(utext(c.func) == "hashlib.sha1" for c in walk_calls(ch.node.body))
     rep.check(rets == ["hash_.hexdigest()[:%s]" % ch.params[1]] and sha and H <= 40, "R1",
               key(ch, None, "hash = first `length` hex characters of a sha1 digest (40 >= H)"), ch, None, str(rets))
-    # readers
+    # the digest is taken over the whole name: every character takes part (a lossy encoding - errors='ignore' /
+    # 'replace', an ascii codec - makes names that differ only in the dropped characters share one hash, and the
+    # order stream then attributes one strategy's orders to the other)
+    ups = [c for c in walk_calls(ch.node.body) if call_name(c) == "update"]
+    good = len(ups) == 1 and len(ups[0].args) == 1
+    if good:
+        a = ups[0].args[0]
+        good = isinstance(a, ast.Call) and call_name(a) == "encode" and utext(a.func.value) == ch.params[0] and \
+            [utext(x).lower().replace("_", "-") for x in a.args] in ([], ["'utf-8'"], ["'utf8'"]) and \
+            all(k.arg == "encoding" and utext(k.value).lower().replace("_", "-") in ("'utf-8'", "'utf8'") for k in a.keywords)
+    rep.check(good, "R1", key(ch, None, "the digest covers every character of the name (lossless utf-8 encoding)"), ch,
+              ups[0] if ups else None)
+    # readers cut the reference by POSITION: the separator is chosen per order (BaseOrder.sep) and may also occur
+    # nowhere else than at position H, so a reader that searches for a separator character reads another
+    # order's reference wrongly
+    for f in prog.all_functions():
+        for c in walk_calls(f.node.body):
+            if call_name(c) in ("split", "rsplit", "partition", "rpartition", "index", "find", "rfind") and \
+                    recv_text(c).endswith("customer_order_ref"):
+                rep.violation("R1", key(f, c, "the reference is parsed by searching for a separator, not by position"), f, c,
+                              "the separator is per order (BaseOrder.sep); readers cut at STRATEGY_NAME_HASH_LENGTH")
     n_read = 0
     for f in prog.all_functions():
         for sub in walk_nodes(f.node.body, ast.Subscript):
